@@ -721,7 +721,9 @@ func sharedObjects() map[string]interface{} {
 		"Lunar": l, "Lunar(leap-year-end)": l2, "Solar": l.GetSolar(), "LunarYear": ly, "LunarMonth": calendar.NewLunarMonthFromYm(2033, -11), "LunarTime": l.GetTime(),
 		"EightChar": ec, "Yun": yun, "DaYun": dy, "LiuNian": dy.GetLiuNian()[3], "XiaoYun": dy.GetXiaoYun()[3], "LiuYue": dy.GetLiuNian()[3].GetLiuYue()[5],
 		"Tao": l.GetTao(), "Foto": l.GetFoto(), "NineStar": l.GetDayNineStar(), "SolarWeek": calendar.NewSolarWeekFromYmd(2020, 5, 22, 1), "SolarMonth": calendar.NewSolarMonthFromYm(2020, 5),
-		"JieQi": l.GetPrevJieQi(),
+		"JieQi": l.GetPrevJieQi(), "SolarSeason": calendar.NewSolarSeasonFromYm(2020, 5), "SolarHalfYear": calendar.NewSolarHalfYearFromYm(2020, 5), "SolarYear": calendar.NewSolarYearFromYear(2020),
+		"Holiday": HolidayUtil.GetHoliday("2020-10-01"), "Fu": calendar.NewSolarFromYmd(2020, 7, 20).GetLunar().GetFu(), "ShuJiu": calendar.NewSolarFromYmd(2020, 12, 25).GetLunar().GetShuJiu(),
+		"TaoFestival": calendar.NewTaoFestival("x", "y"), "FotoFestival": calendar.NewFotoFestival("a", "b", true, "c"),
 	}
 }
 
